@@ -181,6 +181,7 @@ func C01(tier rt.Tier) int {
 			lens = spans(0, 4200, 65500, 65600, 1<<20-4, 1<<20+4, util.MPTMaxAllowableNodeSize-3, util.MPTMaxAllowableNodeSize)
 		}
 		sizeSweep(rep, "map-behaviour", lens, []StoreKind{Mem, LevelP}, 1, nil, nil)
+		widthSweep(rep, "map-behaviour", []StoreKind{Mem, LevelP}, 1, nil)
 	}
 	rep.Set("rule", "BFS over all histories of the listed alphabets on a fresh real trie per history (replay); after every operation: return value/error judged against map model, every alphabet path looked up (raw and decoded), full value iteration compared; states merged on (model content, root, version, pending change set, writable-store keys); non-trivial = distinct merged state")
 	rep.Assumption("RocksDB is replaced by an in-memory write-log stand-in (third_party/grocksdb); PNodeDB's own code is real")
